@@ -572,6 +572,7 @@ type execState struct {
 	joined   bool
 	panicked any
 	g        int64 // goroutine that runs the call
+	answer   bool  // its consumer sends on `to`: never close that channel under it
 }
 
 var hits [4096]atomic.Int64
@@ -785,6 +786,7 @@ func runJob(job atpcs.Job) (res atpcs.JobResult) {
 		}
 	}
 
+	quit := make(chan struct{}) // closed at the end of the session
 	var exMu sync.Mutex
 	var startExec func(o atpcs.DOp)
 	startExec = func(o atpcs.DOp) {
@@ -799,12 +801,24 @@ func runJob(job atpcs.Job) (res atpcs.JobResult) {
 			x.from = make(chan schema.Input)
 			hold := o.Hold
 			reissue := o.Reissue
+			answer := o.Answer
+			x.answer = answer
+			toCh := x.to
 			go func(ch chan schema.Input) {
 				if hold {
 					gt.wait("consumer:"+x.run, timeout)
 				}
 				for sg := range ch {
 					rec.add(atpcs.Ev{K: "gotsig", Run: x.run, Msg: sg.RunID + "/" + sg.ID})
+					if answer && toCh != nil {
+						// answer before receiving again; the send lasts until the writer goroutine takes it
+						select {
+						case toCh <- schema.Input{RunID: x.run, ID: "sg", InputData: "d"}:
+							rec.add(atpcs.Ev{K: "answered", Run: x.run})
+						case <-quit:
+							return
+						}
+					}
 				}
 				rec.add(atpcs.Ev{K: "sigclosed", Run: x.run})
 				if reissue {
@@ -1013,6 +1027,7 @@ func runJob(job atpcs.Job) (res atpcs.JobResult) {
 	srv.stopped = true
 	srv.mu.Unlock()
 	close(srv.stop)
+	close(quit)
 	// let the script end the stream itself (it does so at once now, unless it is stuck in a write)
 	select {
 	case <-srvDone:
@@ -1030,7 +1045,7 @@ func runJob(job atpcs.Job) (res atpcs.JobResult) {
 	case <-time.After(2 * time.Second):
 	}
 	for _, x := range order {
-		if x.to != nil {
+		if x.to != nil && !x.answer {
 			close(x.to)
 		}
 	}
